@@ -556,7 +556,7 @@ Lemma burst_from_empty s b now h :
     /\ weakR h pend'
     /\ (forall x, pend' = Some x -> t_deadline x = now + MAX_INTERBURST_SYMBOLS)
     /\ ((c = None \/ c = Some (Ok EOM)) -> pend' = None)
-    /\ (forall r, t = TMessage r -> r = Ok EOM).
+    /\ (forall r, t = TMessage r -> r = Ok EOM /\ c = Some (Ok EOM)).
 Proof.
   intros Hb Hh Hl Hp Hn Ht c Hv. rewrite assemble_live by assumption. cbv zeta.
   fold c. rewrite Hp.
@@ -574,7 +574,7 @@ Proof.
     + cbn [pending_accept]. unfold pending_poll, is_expired_at. cbn [t_deadline t_data].
       rewrite N.leb_refl.
       eexists _, _, _. split; [reflexivity|]. split; [apply nd_eom, Ht|]. split; [discriminate|].
-      split; [exact I|]. split; [discriminate|]. split; [reflexivity|]. intros r Hr; inversion Hr; reflexivity.
+      split; [exact I|]. split; [discriminate|]. split; [reflexivity|]. intros r Hr; inversion Hr; split; reflexivity.
     + cbn [pending_poll]. eexists _, _, _. split; [reflexivity|]. split; [exact Hn'|]. split; [discriminate|].
       split; [exact I|]. split; [discriminate|]. split; [reflexivity|discriminate].
   - cbn [pending_accept]. unfold pending_poll, is_expired_at. cbn [t_deadline t_data].
